@@ -440,6 +440,7 @@ def r7(F, R):
     n_started = 0
     n_quiet_bad = []
     fin_rows = err_rows = 0
+    boundary = {}
     for p in J.rows:
         d = J.shape(p)
         ps = J.pushes(p)
@@ -568,6 +569,15 @@ def r7(F, R):
         else:
             if el_pushes:
                 n_quiet_bad.append(("records a result", d))
+            if kind in ("Started", "Finished"):
+                emptied = any((e[0] == "call" and re.search(r"Vec::<.*>::(clear|drain|truncate)$|mem::(take|replace)$", e[1]) and e[2] and "self.logs" in T.roots(e[2][0]))
+                              or (e[0] == "write" and T.path(e[1]) == "self.logs") for e in p.effects)
+                boundary.setdefault(kind, []).append(emptied)
+    # a log buffered during one scenario must not end up in an entry of the next one: the buffer is emptied at a scenario boundary
+    bok = any(v and all(v) for v in boundary.values())
+    R.check(bok, "json/logs-do-not-cross-scenarios", co, "the log buffer is emptied on every Scenario::" + "/".join(k for k, v in boundary.items() if v and all(v)),
+            "neither Scenario::Finished nor Scenario::Started empties the `logs` buffer on every path: a log arriving after a scenario's last step / hook "
+            "is attached to the first step or hook of the NEXT scenario, where it did not happen")
     R.check(not n_quiet_bad, "json/nothing-else-recorded", co, "bracket / Started / Finished events record nothing and write nothing",
             f"events that carry no step or hook result change the report: {n_quiet_bad[:3]}")
     want_steps = {(l, k) + key for l in ("Rule", "Scenario") for k in ("Background", "Step") for key in JSON_STEP_STATUS}
